@@ -155,16 +155,26 @@ def ft_direct_sum_upper(cx, N, window=False):
 
 @harness("C13", "ft_roundtrip",
          quick=[dict(N=n, atype="complete") for n in (2, 3, 4, 5, 6)] +
-               [dict(N=n, atype="upper-half") for n in (2, 3, 4)],
+               [dict(N=n, atype="upper-half") for n in (2, 3, 4)] +
+               [dict(N=3, atype="complete", units="1/cm"), dict(N=2, atype="upper-half", units="eV")],
          thorough=[dict(N=n, atype="complete") for n in (2, 3, 4, 5, 6, 8, 10, 12, 20, 24)] +
-                  [dict(N=n, atype="upper-half") for n in (2, 3, 4, 5, 6, 10, 12)],
+                  [dict(N=n, atype="upper-half") for n in (2, 3, 4, 5, 6, 10, 12)] +
+                  [dict(N=n, atype=a, units=u) for n in (3, 4) for a in ("complete", "upper-half") for u in ("1/cm", "eV")],
          functions=[F_DF + ":DFunction.get_Fourier_transform",
                     F_DF + ":DFunction.get_inverse_Fourier_transform",
                     F_T + ":TimeAxis.get_FrequencyAxis", F_W + ":FrequencyAxis.get_TimeAxis"],
          bound="N<=6 complete / <=4 upper-half (thorough 12 / 6); start, step>0 symbolic; data arbitrary complex "
-               "(upper-half: f(0) real, as the Hermitian extension requires)",
+               "(upper-half: f(0) real, as the Hermitian extension requires); with units=u both transforms are called inside "
+               "energy_units(u)",
          out="lengths beyond the bound")
-def ft_roundtrip(cx, N, atype):
+def ft_roundtrip(cx, N, atype, units=None):
+    import contextlib
+    from quantarhei import energy_units
+    with (energy_units(units) if units else contextlib.nullcontext()):
+        _ft_roundtrip(cx, N, atype)
+
+
+def _ft_roundtrip(cx, N, atype):
     from quantarhei import TimeAxis, DFunction
     step = cx.real("step", 0.1, 2.0)
     cx.assume(step > 0, "axis step > 0")
@@ -185,14 +195,21 @@ def ft_roundtrip(cx, N, atype):
 
 
 @harness("C13", "freq_ft_roundtrip",
-         quick=[dict(N=n) for n in (2, 3, 4, 5, 6)],
-         thorough=[dict(N=n) for n in (2, 3, 4, 5, 6, 8, 10, 12, 20, 24)],
+         quick=[dict(N=n) for n in (2, 3, 4, 5, 6)] + [dict(N=3, units="1/cm")],
+         thorough=[dict(N=n) for n in (2, 3, 4, 5, 6, 8, 10, 12, 20, 24)] + [dict(N=n, units=u) for n in (3, 4) for u in ("1/cm", "eV")],
          functions=[F_DF + ":DFunction.get_Fourier_transform",
                     F_DF + ":DFunction.get_inverse_Fourier_transform",
                     F_T + ":TimeAxis.get_FrequencyAxis", F_W + ":FrequencyAxis.get_TimeAxis"],
-         bound="functions on complete frequency axes, N<=6 (thorough 12); start, step>0 symbolic; data arbitrary complex",
+         bound="with units=u the axis is created and both transforms are called inside energy_units(u); functions on complete frequency axes, N<=6 (thorough 12); start, step>0 symbolic; data arbitrary complex",
          out="upper-half frequency-domain functions (their extension convention is not stated by the property)")
-def freq_ft_roundtrip(cx, N):
+def freq_ft_roundtrip(cx, N, units=None):
+    import contextlib
+    from quantarhei import energy_units
+    with (energy_units(units) if units else contextlib.nullcontext()):
+        _freq_ft_roundtrip(cx, N)
+
+
+def _freq_ft_roundtrip(cx, N):
     from quantarhei import FrequencyAxis, DFunction
     step = cx.real("wstep", 0.1, 2.0)
     start = cx.real("wstart")
